@@ -3,6 +3,7 @@ import Wx.Job.C08b
 import Wx.Job.C06
 import Wx.Job.C08t
 import Wx.Job.C08m
+import Wx.Cli.SignalPrioThm
 /-! # C08 — Quit always terminates and leaves no supervised process behind
 
 > After the action handler requests a quit the main task finishes within a bounded time whatever the jobs are doing:
@@ -75,5 +76,11 @@ theorem main_task_done_after_largest_deadline (sig : Sig) (g : Nat) (jobs : List
 /-- a job task that has ended never comes back, whatever is sent to it, polled on it or dropped afterwards -/
 theorem ended_task_stays_ended (x : Sim) (h : x.st.alive = false) (ops : List Op) : ∀ y ∈ runOps x ops, y.st.alive = false :=
   dead_stays_dead x h ops
+
+/-- **in the CLI an interrupt or terminate signal leads to this shutdown at once**: the signal source sends INT and TERM as
+    URGENT events (table regenerated from sources/signal.rs on every run) — unfiltered, and flushing the pending batch in the
+    turn they are received (`Sp.Th.turn_urgent`), so the handler's quit decision (`Ca.onSignals`) is not held up by the window -/
+theorem interrupt_and_terminate_travel_urgent :
+    Wp.signalPriority "Interrupt" = "Urgent" ∧ Wp.signalPriority "Terminate" = "Urgent" := Wp.interrupt_and_terminate_are_urgent
 
 end Props.C08
